@@ -3,9 +3,9 @@ package props
 import (
 	"fmt"
 	"go/ast"
-	"sort"
 	"go/token"
 	"go/types"
+	"sort"
 	"strings"
 
 	"golang.org/x/tools/go/ssa"
